@@ -35,7 +35,7 @@ def rnd_coord(rng):
 def rnd_item(rng, base=None):
     cls = rng.choice(['ship', 'drone', 'fighter'])
     k = rng.random()
-    where = 'self' if k < 0.8 else rng.choice(['other', 'nosys', 'nofit'])
+    where = 'self' if k < 0.75 else rng.choice(['other', 'nosys', 'nofit', 'removed', 'cleared', 'moved'])
     if base is not None and rng.random() < 0.2:
         coord = list(base)
     else:
@@ -98,8 +98,8 @@ def build_world(case):
         obj = cls(tid)
         obj.coordinate = Coordinates(*it['coord'])
         if it['where'] != 'nofit':
-            fit = Fit(solar_system={'self': solsys, 'other': other,
-                                    'nosys': None}[it['where']])
+            fit = Fit(solar_system={'self': solsys, 'other': other, 'nosys': None, 'removed': solsys,
+                                    'cleared': solsys, 'moved': solsys}[it['where']])
             if it['cls'] == 'ship':
                 fit.ship = obj
             elif it['cls'] == 'drone':
@@ -107,6 +107,20 @@ def build_world(case):
             else:
                 fit.fighters.add(obj)
         items.append(obj)
+    # fits that were in the queried solar system and left it again
+    for k, it in enumerate(case['items']):
+        fit = items[k]._fit
+        if it['where'] == 'removed':
+            solsys.fits.remove(fit)
+        elif it['where'] == 'moved':
+            solsys.fits.remove(fit)
+            other.fits.add(fit)
+    if any(it['where'] == 'cleared' for it in case['items']):
+        keep = [items[k]._fit for k, it in enumerate(case['items']) if it['where'] == 'self']
+        solsys.fits.clear()
+        for f in keep:
+            if f.solar_system is None:
+                solsys.fits.add(f)
     return solsys, items
 
 
@@ -122,7 +136,10 @@ PAIRS = [(0, 1), (1, 0), (1, 2), (0, 2), (0, 0)]
 
 
 def run_impl(case):
-    solsys, items = build_world(case)
+    try:
+        solsys, items = build_world(case)
+    except Exception as e:  # noqa: a documented-valid placement sequence raised
+        return {'build_error': ['raise', type(e).__name__]}
     obs = {}
     for (i, j) in PAIRS:
         obs['ctc%d%d' % (i, j)] = call(solsys.get_ctc_range, items[i], items[j])
@@ -135,7 +152,7 @@ def run_impl(case):
 # ---------------------------------------------------------------------------
 
 def item_tokens(it):
-    w = {'self': '1', 'other': '2', 'nosys': '-', 'nofit': '-'}[it['where']]
+    w = {'self': '1', 'other': '2', 'nosys': '-', 'nofit': '-', 'removed': '-', 'cleared': '-', 'moved': '2'}[it['where']]
     r = it['radius'] if (it['radius'] is not None and it['loaded']) else 0
     return [qstr(c) for c in it['coord']] + [w, qstr(r)]
 
@@ -168,6 +185,8 @@ def close(x, y, rel=REL):
 
 def compare(case, iobs, mobs):
     """None when implementation and model agree, else a description."""
+    if 'build_error' in iobs:
+        return 'placing the items through the public API raised %s' % iobs['build_error'][1]
     for key, iv in iobs.items():
         mv = mobs[key]
         if mv[0] == 'mismatch':
@@ -209,6 +228,9 @@ def compare(case, iobs, mobs):
 def oracle(case, iobs):
     """Direct statement of the property on the implementation's outputs."""
     its = case['items']
+    if 'build_error' in iobs:
+        return ('moving fits between solar systems (add / remove / clear / add elsewhere) raised %s'
+                % iobs['build_error'][1])
     pos = [[Fraction(c) for c in it['coord']] for it in its]
 
     def eu(i, j):
